@@ -20,6 +20,7 @@ S = z3.Function('S', _I, _I)           # atom of repr(int i)
 S_INV = z3.Function('S_inv', _I, _I)
 SF = z3.Function('SF', _I, _I)         # atom of repr(float(i))
 SF_INV = z3.Function('SF_inv', _I, _I)
+POS = z3.Function('POS', _I, _I)       # offset of the one byte that distinguishes content c from every other content
 TAG = z3.Function('TAG', _I, _I)       # 0 literal, 1 S-range, 2 SF-range, 3 free symbolic atoms
 
 
@@ -39,6 +40,14 @@ def size_of(cid):
     c = _unwrap(cid)
     t = _app(SZ, c, lambda t: [M.op2('<=', M.intval(0), t)])
     return SymInt(t)
+
+
+def pos_of(cid):
+    """Chunked content model: content c is SZ(c) bytes that are all equal to a filler byte except one byte, unique to c,
+    at offset POS(c).  0 <= POS(c) < SZ(c)."""
+    c = _unwrap(cid)
+    sz = _unwrap(size_of(cid))
+    return SymInt(_app(POS, c, lambda t: [M.op2('<=', M.intval(0), t), M.op2('<', t, sz)]))
 
 
 def _s_axioms(arg, inv, tag):
@@ -462,6 +471,13 @@ class SymHash(_Sym):
             if type(o) is str or getattr(type(o), '_is_sym', False):
                 return SymBool(FALSE)
             return NotImplemented
+        a, b = self.e, o.e
+        if type(a) is tuple or type(b) is tuple:
+            # digest of a prefix: (covered length, distinguishing byte inside?, content id if inside else 0)
+            if type(a) is not tuple or type(b) is not tuple:
+                raise HarnessError('SymHash: prefix digest compared with a whole-content digest')
+            from . import logic as L
+            return L.and_(*[SymBool(TRUE) if tid(x) == tid(y) else SymBool(M.op2('==', x, y)) for x, y in zip(a, b)])
         if tid(o.e) == tid(self.e):
             return SymBool(TRUE)
         return SymBool(M.op2('==', self.e, o.e))
